@@ -15,6 +15,7 @@ package main
 
 import (
 	"go/token"
+	"go/types"
 
 	"golang.org/x/tools/go/ssa"
 )
@@ -609,4 +610,99 @@ func stepFailsVia(loc stepLoc) (bool, string) {
 		}
 	}
 	return true, ""
+}
+
+
+// siteIn: the instruction of f through which `in` executes: `in` itself when it belongs to f (or one
+// of its closures), else the unique call in f of the new helper (canon.go) that contains it.
+func siteIn(f *ssa.Function, in ssa.Instruction) ssa.Instruction {
+	cur := in
+	for depth := 0; depth < 4; depth++ {
+		p := cur.Parent()
+		if p == f {
+			return cur
+		}
+		if !gNewFuncs[p] {
+			if outermost(p) == f {
+				return cur
+			}
+			return nil
+		}
+		var site ssa.Instruction
+		n := 0
+		for _, s := range gCallSitesOf[p] {
+			if outermost(s.Parent()) == f || gNewFuncs[s.Parent()] {
+				site = s
+				n++
+			}
+		}
+		if n != 1 {
+			return nil
+		}
+		cur = site
+	}
+	return nil
+}
+
+// mustDoForResult: every path of h to a return whose (single, boolean) result may equal `outcome`
+// passes an instruction satisfying p. Returns of the opposite constant are exempt.
+func mustDoForResult(h *ssa.Function, p func(ssa.Instruction) bool, outcome bool) bool {
+	if h == nil || len(h.Blocks) == 0 || h.Signature.Results().Len() != 1 {
+		return false
+	}
+	r := reach(h, nil, nil, p)
+	rets := returnsOf(h)
+	if len(rets) == 0 {
+		return false
+	}
+	for _, ret := range rets {
+		if !r(ret) {
+			continue
+		}
+		opposite := true
+		valueOrigins(h, ret.Results[0], func(root ssa.Value) {
+			k, ok := strip(root).(*ssa.Const)
+			if !ok || k.Value == nil || (k.Value.String() == "true") == outcome {
+				opposite = false
+			}
+		})
+		if !opposite {
+			return false
+		}
+	}
+	return true
+}
+
+// condLiftCut: edges of f on which p is known to have happened inside a helper: the successors of a
+// test of a boolean helper result for the outcomes on which the helper must have done p. Used together
+// with reach(): `reach(f, start, orCut(cut, condLiftCut(f, p)), liftMust(f, p))`.
+func condLiftCut(f *ssa.Function, p func(ssa.Instruction) bool) func(from, to *ssa.BasicBlock) bool {
+	pkg := pkgOf(outermost(f))
+	type edge struct{ from, to *ssa.BasicBlock }
+	cutEdges := map[edge]bool{}
+	allInstrs(f, func(in ssa.Instruction) {
+		cl, ok := in.(*ssa.Call)
+		if !ok {
+			return
+		}
+		h := helperCallee(cl, pkg)
+		if h == nil || h.Signature.Results().Len() != 1 {
+			return
+		}
+		if b, isB := h.Signature.Results().At(0).Type().Underlying().(*types.Basic); !isB || b.Kind() != types.Bool {
+			return
+		}
+		for _, t := range boolTestsOf(f, cl) {
+			if t.TrueSucc == t.FalseSucc {
+				continue
+			}
+			if mustDoForResult(h, p, true) {
+				cutEdges[edge{t.If.Block(), t.TrueSucc}] = true
+			}
+			if mustDoForResult(h, p, false) {
+				cutEdges[edge{t.If.Block(), t.FalseSucc}] = true
+			}
+		}
+	})
+	return func(from, to *ssa.BasicBlock) bool { return cutEdges[edge{from, to}] }
 }
